@@ -70,6 +70,10 @@ def ops_catalogue():
     add("raw-get", "raw_command", b"get h1", b"END\r\n")
     add("quit", "quit")
     add("shutdown", "shutdown")
+    add("shutdown-graceful", "shutdown", True)
+    add("stats-detail-dump", "stats", "detail", "dump")
+    add("stats-detail-on", "stats", "detail", "on")
+    add("stats-reset", "stats", "reset")
     add("getitem-hit", "__getitem__", "h1")
     add("getitem-miss", "__getitem__", "m1")
     add("setitem", "__setitem__", "k-item", b"item-value")
